@@ -289,7 +289,19 @@ func childC15(raw json.RawMessage) {
 	fmt.Fprintf(w, "STARTED %s\n", b)
 	w.Flush()
 	if k.Mode == "end-during-open" {
-		time.Sleep(400 * time.Millisecond)
+		// the request of the reopen comes from a goroutine of the library: wait for it where it is due
+		for t0 := time.Now(); time.Since(t0) < 3*time.Second; time.Sleep(10 * time.Millisecond) {
+			n := 0
+			for _, oc := range d.Client.Opens {
+				if oc.VbID == k.First {
+					n++
+				}
+			}
+			if n >= 2 {
+				break
+			}
+		}
+		time.Sleep(100 * time.Millisecond)
 	}
 	if k.Mode == "reopen-fail" || k.Mode == "reopen-recover" {
 		vb := k.First
